@@ -90,6 +90,7 @@ class Gen:
         self.counter = 0
         self.repeat_budget = 256     # product of literal .repeat counts along a nest, summed: keeps work small
         self.inc_depth = 0
+        self.ghosts = []             # names declared '.extern' somewhere in the program but (mostly) never defined globally
 
     def fresh(self, p):
         self.counter += 1
@@ -184,6 +185,8 @@ class Gen:
         r = self.r
         pool = self.consts + self.labels + self.later_consts + self.later_labels
         c = r.random()
+        if self.ghosts and r.random() < 0.12:
+            return self.case_of(r.choice(self.ghosts))
         if pool and c < 0.8:
             return self.case_of(r.choice(pool))
         if self.locals and c < 0.9:
@@ -440,6 +443,13 @@ class Gen:
             return f"{nm} {self.expr(3)}"
         if base == ".extern":
             names = [r.choice((self.consts + self.labels + self.later_labels + ["all", "ALL", "nosuch"]) or ["all"]) for _ in range(r.choice([0, 1, 1, 2, 3]))]
+            if self.p(0.4):
+                # a declared export that no file may ever define: a forgotten routine, or a local label (cannot be exported at all);
+                # sym() refers to these names later on, in this file or in another one
+                g = r.choice(self.ghosts) if (self.ghosts and self.p(0.3)) else r.choice([self.fresh("gh"), self.fresh("gh"), "1$", "10$", "putc"])
+                if g not in self.ghosts:
+                    self.ghosts.append(g)
+                names.insert(r.randrange(len(names) + 1), g)
             return nm + (" " + ", ".join(names) if names else "")
         if base in (".blkb", ".blkw"):
             if self.p(0.06):
@@ -548,6 +558,13 @@ class Gen:
         if self.p(0.4) and fileidx == 0:
             lines.append(self.directive(".link", 0, False) if self.p(0.7) else f". = {self.num(self.r.choice([0o1000, 0o2000, 0o100]))}")
         lines += self.block(nstmts, 0, False)
+        if self.ghosts and self.p(0.5):
+            # a use after the declaration for sure (uses before it come from sym() in earlier statements / files), and sometimes a
+            # definition that is only private to this file or local (does not satisfy the export)
+            g = r.choice(self.ghosts)
+            lines.insert(r.randrange(len(lines) + 1), r.choice([f".word {g}", f"mov {g}, r0", f"br {g}", f"jsr pc, {g}", f".byte {g} & 7", f".blkb {g}", f"k{fileidx}g = {g} + 1"]))
+            if fileidx > 0 and self.p(0.3) and not g[0].isdigit():
+                lines.append(r.choice([f"{g} = 5", f"{g}: nop"]))
         for name in promised_l:
             if name in self.later_labels:
                 lines.append(name + ":")
@@ -707,6 +724,7 @@ class Gen:
             "backward-skip": lambda: r.choice([".link 1000\nnop\n. = 1000", ".link 1000\n. = 777", ".link 1000\n.blkb 10\n. = . - 4", ".link 1000\n. = -1", ".link 1000\n. = 200000", ".link 1000\n. = fwd\nfwd = 500"]),
             "end-variants": lambda: r.choice([".end\n)))", ".end 1", "end", ".repeat 2 { .end }\nnop", ".end\n.end", ".once\n.once", ".END\n\"", ".end ; c\n'", "nop\n.end\n.word ("]),
             "extern-misuse": lambda: r.choice([".extern 5", ".extern", ".extern all, all", ".extern a+b", ".extern \"a\"", ".extern (a)", ".extern all\nea:\neb = 1", ".extern .", ".extern r0", ".extern 1$", ".extern -a", ".extern a b"]),
+            "extern-undefined": lambda: self.extern_undefined(),
             "huge-count": lambda: self.huge_count(),
             "include-graph": lambda: self.include_graph(),
             "big-image": lambda: r.choice([".blkb 177777\n.blkb 177777\nmake_bin", ".repeat 2 { .blkw 77777 }\nmake_wav \"big.wav\"", ".blkb 177777\n.blkb 1", ".link 177776\n.blkb 10", ".link 177777\n.byte 1, 2", ".link 177776\n.word 1, 2\nmake_bin",
@@ -719,6 +737,24 @@ class Gen:
                                                            "(1)(2)", "<1>(2)", "(1)<2>", "<1><2>", "1(2)(3)", "^/1/(2)", "(1", "1)", "<1", "1>", "(1>", "<1)", "^/1", "^/1)", "(^/1)/", "a(", "a()", "a(,)", "(,)", "(;)", "<;>", "(\n1\n)", "<1\n>", "1 +\n2", "(1 + ; c\n 2)"]),
         }
         return F
+
+    def extern_undefined(self):
+        """'.extern NAME' where NAME is never defined as a global symbol of the declaring file, together with a reference to NAME that its
+        own file does not satisfy.  '@@F@@' separates the parts that go to different files (same file if there is only one)."""
+        r = self.r
+        g, h = self.fresh("ex"), self.fresh("ey")
+        use = lambda n: r.choice([f".word {n}", f"mov #{n}, r0", f"jsr pc, {n}", f"br {n}", f".byte {n} & 1", f".blkb {n}", f"mov {n}(r1), r2", f".word {n.upper()}",
+                                  f"q{self.fresh('')} = {n} + 1", f".repeat {n} {{ nop }}", f".ascii <{n}>", f". = . + {n}"])
+        T = [f".extern {g}\n{use(g)}", f"{use(g)}\n.extern {g}", f".extern {g}\n{use(g)}\n{use(g)}", f".extern {g}, {h}\n{g}:\n{use(h)}", f".extern {g}\n.extern {g}\n{use(g)}",
+             f".extern 1$\nf{g}: nop\n1$: nop\ns{g}: br 1$", f".extern 1$\n1$: nop\n.word 1$\ng{g}:\n.word 1$", f".extern 7\n.word 7", f"1$: .extern 1$\nbr 1$",
+             f".extern all\n{use(g)}", f".extern all, {g}\n{use(g)}", f".extern {g.upper()}\n{use(g)}", f".repeat 2 {{ .extern {g} }}\n{use(g)}", f".extern {g}\n.repeat 2 {{ {use(g)} }}",
+             f".extern {g}\n.link {g}", f".link {g}\n.extern {g}\nnop", f".extern {g}\n{g} = {g} + 1", f".extern {g}\n.word {g} - {g}", f".extern {g}\n.include \"inc_ex.mac\"",
+             # across files
+             f".extern {g}\ngetc{g}: rts pc@@F@@main{g}: jsr pc, {g}\nhalt", f"{use(g)}@@F@@.extern {g}", f".extern {g}@@F@@{use(g)}@@F@@{use(g)}",
+             f".extern {g}@@F@@{g} = 5\n.word {g}@@F@@{use(g)}", f".extern {g}@@F@@{g}: nop@@F@@{use(g)}", f".extern {g}\n{use(g)}@@F@@{g}:: nop", f".extern {g}@@F@@.extern {g}\n{use(g)}",
+             f".extern all@@F@@{use(g)}", f".extern 1$@@F@@1$: nop\nbr 1$\nn{g}:\n.word 1$", f".extern {g}\n1$: nop@@F@@.word {g}, 1$"]
+        self.fs["inc_ex.mac"] = f".word {g}\n"
+        return r.choice(T)
 
     def huge_count(self):
         """a huge (or boundary, or negative) value in a count / size / alignment / address position, alone and nested"""
@@ -826,6 +862,14 @@ class Gen:
             text = F[kind]()
             self.tags.append("fault:" + kind)
             fi = r.randrange(len(files))
+            if "@@F@@" in text:
+                # a fault made of cooperating statements in different files (all in one if the program has a single file)
+                parts = text.split("@@F@@")
+                for j, part in enumerate(parts[1:], 1):
+                    fj, lj = files[(fi + j) % len(files)]
+                    pj = r.randrange(len(lj) + 1)
+                    lj[pj:pj] = part.split("\n")
+                text = parts[0]
             fn, ls = files[fi]
             pos = r.randrange(len(ls) + 1)
             c = r.random()
